@@ -175,7 +175,7 @@ Lemma resolve_pending_nil th t : t_pending t = [] → resolve_pending th t = t <
 Proof. unfold resolve_pending. by intros ->. Qed.
 
 Lemma track_probe_ok X cfg i s t : Inv cfg s → TR X cfg s t →
-  TR X cfg s (track_step cfg i EProbe [OListing (listing s); OFile (file_view s); OTable (table_view s)] t).
+  TR X cfg s (track_step0 cfg i EProbe [OListing (listing s); OFile (file_view s); OTable (table_view s)] t).
 Proof.
   intros HI HT. simpl. unfold t_probe. simpl. rewrite (resolve_pending_nil _ _ (tr_pending _ _ _ _ HT)).
   set (t0 := t <| t_pending := [] |>).
@@ -201,7 +201,7 @@ Qed.
 (** ** EIpcList *)
 
 Lemma track_ipclist_ok X cfg i s t : Inv cfg s → TR X cfg s t →
-  TR X cfg s (track_step cfg i EIpcList [OIpcList (listing s)] t).
+  TR X cfg s (track_step0 cfg i EIpcList [OIpcList (listing s)] t).
 Proof.
   intros HI HT. simpl. rewrite flag_true; [done|]. apply orb_true_iff. left. apply perm_by_perm.
   rewrite (listing_table_perm _ _ HI). symmetry. by eapply TR_holds_table.
